@@ -82,6 +82,13 @@ MD1 == ObjFam(2, MV0)
 MergeDocs == MV0 \cup MD1 \cup {O1("k0", d) : d \in MD1} \cup {O2("k0", d, "k1", x) : d \in MD1, x \in {N1, Null}}
              \cup {O1("k0", O1("k1", d)) : d \in ObjFam(1, MV0)} \cup {Arr(<<N1, Null>>), EmptyArr, N2}
 
+(* merge patches / targets with several leaf members under long key paths (depth 1..7) *)
+MLeafs == {O2("k0", x, "k1", y) : x \in {N1, Null, S0}, y \in {N2, Null}} \cup
+          {Obj([j \in {"k0", "k1", "k2"} |-> IF j = "k0" THEN x ELSE IF j = "k1" THEN Null ELSE N1]) : x \in {N1, EmptyObj}}
+MKeyShapes == { <<"k0">>, <<"k0", "k1">>, <<"k0", "k1", "k2">>, <<"k0", "k1", "k2", "k0">>, <<"k0", "k1", "k2", "k0", "k1">>,
+                <<"k0", "k1", "k2", "k0", "k1", "k2">> }
+MergeDeep == {Wrap(n, w) : n \in MLeafs, w \in MKeyShapes}
+
 (* type-confusable values for the equality oracle (C04) *)
 Confusable ==
   { Void, Null, Str(""), EmptyArr, EmptyObj, Num(0), Bool(FALSE), Bool(TRUE), Str("s0"),
